@@ -28,6 +28,8 @@ TEMPLATE = """
                 (?P<inner>.*?)
                 </(?P=tagname)\\s*>))
             """
+# the same pattern after the proposed fix (fixes/C09-ascii-tagname-fold.diff): tag names fold ASCII-only
+TEMPLATE_ASCII = TEMPLATE.replace("<(?P<tagname> NAMES)", "<(?P<tagname> (?a:NAMES))")
 FLAGS = re.VERBOSE | re.DOTALL | re.IGNORECASE | re.UNICODE
 OPAQUE = ["nowiki", "pre", "math", "source", "syntaxhighlight", "timeline"]
 
@@ -86,9 +88,12 @@ def generate(src):
     info = json.loads(lines[-1])
     if info["flags"] != FLAGS:
         raise RuntimeError("replace_tags regex flags changed: %r" % info["flags"])
-    pre, post = TEMPLATE.split("NAMES")
     pat = info["pattern"]
-    if not (pat.startswith(pre) and pat.endswith(post) and len(pat) > len(pre) + len(post)):
+    for tmpl, name_wrap in ((TEMPLATE_ASCII, "(?a:%s)"), (TEMPLATE, "%s")):
+        pre, post = tmpl.split("NAMES")
+        if pat.startswith(pre) and pat.endswith(post) and len(pat) > len(pre) + len(post):
+            break
+    else:
         raise RuntimeError("replace_tags regex no longer has the transcribed shape")
     names = pat[len(pre):len(pat) - len(post)].split("|")
     for n in names:
@@ -117,7 +122,7 @@ def generate(src):
     letters = sorted(set("".join(names)))
     fold = []
     for l in letters:
-        rx = re.compile(l, re.IGNORECASE)
+        rx = re.compile(name_wrap % l, re.IGNORECASE)
         for i, ch in enumerate(allc):
             if rx.fullmatch(ch):
                 if i < 128:
@@ -130,6 +135,7 @@ def generate(src):
             raise RuntimeError("IGNORECASE does not fold %r" % l)
     # simple lower used by back-references: tabulate every non-ASCII code point whose lower image is an
     # image of a foldable code point (so the model's equality test agrees with sre on all inputs)
+    # (the back-reference (?P=tagname) lies outside the (?a:) group in both shapes: Unicode lower)
     images = {_sre.unicode_tolower(c) for c, _ in fold} | {ord(l) for l in letters}
     sre_lower = [(c, _sre.unicode_tolower(c)) for c in range(128, 0x110000) if _sre.unicode_tolower(c) in images]
     for c in range(128):
@@ -140,6 +146,8 @@ def generate(src):
     for c in range(128):
         if chr(c).lower() != chr(c + 32 if 65 <= c <= 90 else c):
             raise RuntimeError("ASCII str.lower differs at %d" % c)
+    if {c for c in ws} != {i for i, ch in enumerate(allc) if ch.isspace()}:
+        raise RuntimeError("re \\s and str.isspace differ (strip is modelled with \\s)")
     v = ["(* GENERATED by vt/gen/c09_tables.py from the snapshot of /repo and the running CPython -- do not edit *)",
          "From Coq Require Import List NArith.", "Import ListNotations.", "Open Scope N_scope.", "",
          "(* alternation of (?P<tagname> ...) in Uniquifier.replace_tags, in the order of the compiled pattern *)",
@@ -154,4 +162,4 @@ def generate(src):
          "(* str.lower() on the non-ASCII foldable code points *)",
          "Definition py_lower_extra : list (N * list N) := [" + "; ".join("(%d, %s)" % (c, nlist(l)) for c, l in py_lower) + "].", ""]
     core.write_if_changed(os.path.join(core.COQ, "C09", "Gen_tables.v"), "\n".join(v))
-    return {"names": names, "ws": ws, "nd": nd, "fold": fold}
+    return {"names": names, "ws": ws, "nd": nd, "fold": fold, "ascii_fold": name_wrap != "%s"}
